@@ -228,7 +228,8 @@ Lemma plan_exp_reconcile_shape w e st1 x :
   \/ (exists r, req_bound (c_trials w) (w_cfg w) (e_max e) r /\
         ((c_sug w = None /\ x = (WSugCreate r, Stop)) \/
          (exists s, c_sug w = Some s /\ (x = (WSugSpec r (s_rv s), Stop) \/
-                                        exists n, x = (WTrialCreate n, Cont) /\ In n (ss_names (s_st s)))))).
+                                        exists n, x = (WTrialCreate n, Cont) /\ In n (ss_names (s_st s))))))
+  \/ (exists s, c_sug w = Some s /\ x = restart_write s /\ s_is (s_st s) SSucceeded = true /\ c_resume (w_cfg w) = FromVolume).
 Proof.
   intros NN. unfold plan_exp_reconcile.
   set (ts := c_trials w).
@@ -248,8 +249,8 @@ Proof.
   - assert (H' : In x (fst (plan_trials (w_cfg w) (e_max e) st2 ts (c_sug w)))) by now rewrite PT.
     destruct NN2 as (?&?&?&?&?&?&?).
     apply plan_trials_shape in H'; [|assumption|lia|unfold completed_count; lia].
-    destruct H' as [->|(r&B1&B2&B3&H')]; [right; now left|].
-    right. right. exists r. split; [|exact H'].
+    destruct H' as [->|[(r&B1&B2&B3&H')|H']]; [right; now left| |do 3 right; exact H'].
+    right. right. left. exists r. split; [|exact H'].
     split; [|exact B2].
     destruct ts as [|t0 ts'] eqn:Ets.
     + specialize (B3 eq_refl). unfold completed_n. cbn. lia.
@@ -285,7 +286,8 @@ Proof.
     apply in_status_write in H. right. left. eexists. split; [exact H|]. exact NN1.
   - apply in_app_or in H as [H|H]; [do 2 right; left; auto|].
     apply plan_exp_reconcile_shape in H; [|exact NN1].
-    destruct H as [H|[H|H]]; [right; left; exact H|do 3 right; left; exact H|do 4 right; exact H].
+    destruct H as [H|[H|[H|(s&Hs&->&_)]]]; [right; left; exact H|do 3 right; left; exact H|do 4 right; exact H|].
+    right. right. left. exists s. eexists. split; [exact Hs|reflexivity].
 Qed.
 
 (* ------------------------------------------------------------------ what the suggestion controller can plan *)
